@@ -142,26 +142,24 @@ Proof.
   - rewrite lk_get_put_other by lia. apply Hlk.
 Qed.
 
+Lemma fm_set_bytes_eq : forall m t v,
+  fm_set_bytes m t v = mk_fmap (if lk_has (fm_lookup m) t then fm_tags m else fm_tags m ++ [t])
+                               (lk_put (fm_lookup m) t (tv_init t v, [])) (fm_ord m).
+Proof. intros m t v. unfold fm_set_bytes, lk_has. destruct (lk_get (fm_lookup m) t); reflexivity. Qed.
+
 Lemma fm_set_bytes_scalar : forall m t v, (forall f, lk_get (fm_lookup m) t = Some f -> snd f = []) ->
   fm_set_bytes m t v = mk_fmap (if lk_has (fm_lookup m) t then fm_tags m else fm_tags m ++ [t])
                                (lk_put (fm_lookup m) t (tv_init t v, [])) (fm_ord m).
-Proof.
-  intros m t v H. unfold fm_set_bytes, lk_has. destruct (lk_get (fm_lookup m) t) as [f|]; [|reflexivity].
-  rewrite (H f eq_refl). reflexivity.
-Qed.
+Proof. intros m t v _. apply fm_set_bytes_eq. Qed.
 
 Lemma map_tv_pair_nil : forall l, map tv_pair l = [] -> l = [].
 Proof. intros [|x l]; [reflexivity|discriminate]. Qed.
 
 Lemma sec_rel_set_scalar : forall s m am t v, sec_rel s m am ->
-  (forall v0 ms, c10_find am t = Some (v0, ms) -> ms = []) ->
   sec_rel s (fm_set_bytes m t v) (c10_put am t (v, [])).
 Proof.
-  intros s [tags lk o] am t v H Hsc. rewrite fm_set_bytes_scalar.
-  - cbn [fm_lookup fm_tags fm_ord]. rewrite <- fld_of_scalar. apply sec_rel_store. exact H.
-  - intros f Hf. destruct H as (_ & _ & Hlk). specialize (Hlk t). cbn [fm_lookup] in *. rewrite Hf in Hlk.
-    destruct Hlk as (_ & [Hfind|[_ Hnil]]); [|exact Hnil].
-    unfold entry_of in Hfind. apply Hsc in Hfind. apply map_tv_pair_nil. exact Hfind.
+  intros s [tags lk o] am t v H. rewrite fm_set_bytes_eq.
+  cbn [fm_lookup fm_tags fm_ord]. rewrite <- fld_of_scalar. apply sec_rel_store. exact H.
 Qed.
 
 (* cook: setting the derived tag (9 in the header, 10 in the trailer) keeps the relation with the SAME abstract map *)
@@ -231,16 +229,15 @@ Proof.
   - apply sec_rel_sort_in_place. unfold fm_set_string. apply sec_rel_set_derived; [apply (H SecTrailer)|reflexivity|intros v0 ms; apply (Hsc SecTrailer TAG_CHECK_SUM v0 ms eq_refl)].
 Qed.
 
-Lemma step_rel : forall m a o, abs_ok a -> msg_rel m a -> c10_op_ok true a o = true ->
+Lemma step_rel : forall strict m a o, abs_ok a -> msg_rel m a -> c10_op_ok strict a o = true ->
   abs_ok (c10_abs_op a o) /\ msg_rel (msg_run_op m o) (c10_abs_op a o).
 Proof.
-  intros m a o Hok H Hop. destruct o as [s t v|s t|s|s t tmpl es|junk|]; cbn [c10_op_ok c10_abs_op msg_run_op negb orb] in *.
+  intros strict m a o Hok H Hop. destruct o as [s t v|s t|s|s t tmpl es|junk|]; cbn [c10_op_ok c10_abs_op msg_run_op] in *.
   - apply andb_true_iff in Hop as [Hop Hstrict]. apply andb_true_iff in Hop as [Htag Hval].
     split.
     + apply abs_ok_upd; [exact Hok|]. intros u e. rewrite c10_find_put. destruct (t =? u) eqn:E; [|apply Hok].
       intros He. inversion He; subst. assert (u = t) by lia. subst u. repeat split; cbn; auto. congruence.
-    + apply msg_rel_upd; [exact H|]. apply sec_rel_set_scalar; [apply H|].
-      intros v0 ms Hf. rewrite Hf in Hstrict. destruct ms; [reflexivity|discriminate].
+    + apply msg_rel_upd; [exact H|]. apply sec_rel_set_scalar. apply H.
   - split.
     + apply abs_ok_upd; [exact Hok|]. intros u e. rewrite c10_find_del. destruct (t =? u); [discriminate|apply Hok].
     + apply msg_rel_upd; [exact H|]. apply sec_rel_remove. apply H.
@@ -271,12 +268,12 @@ Proof.
   intros s. destruct s; (split; [apply fm_rep_init|split; [reflexivity|intros t; cbn; left; reflexivity]]).
 Qed.
 
-Lemma run_rel : forall ops m a, abs_ok a -> msg_rel m a -> c10_ops_ok true a ops = true ->
+Lemma run_rel : forall strict ops m a, abs_ok a -> msg_rel m a -> c10_ops_ok strict a ops = true ->
   abs_ok (fold_left c10_abs_op ops a) /\ msg_rel (fold_left msg_run_op ops m) (fold_left c10_abs_op ops a).
 Proof.
-  induction ops as [|o ops IH]; intros m a Hok H Hops; cbn [fold_left]; [split; assumption|].
+  intros strict. induction ops as [|o ops IH]; intros m a Hok H Hops; cbn [fold_left]; [split; assumption|].
   cbn [c10_ops_ok] in Hops. apply andb_true_iff in Hops as [Ho Hr].
-  destruct (step_rel m a o Hok H Ho) as [Hok' H']. apply IH; assumption.
+  destruct (step_rel strict m a o Hok H Ho) as [Hok' H']. apply IH; assumption.
 Qed.
 
 (* ================= what a section writes ================= *)
@@ -1018,34 +1015,39 @@ Proof.
     reflexivity.
 Qed.
 
-(* C10 for every proper operation program (strict: no scalar set over a live repeating group) *)
-Theorem run_ops_wellformed : forall ops, c10_proper_strict ops = true ->
+(* C10 for every proper operation program *)
+Theorem run_ops_wellformed : forall ops, c10_proper ops = true ->
   c10_wf (snd (msg_build (msg_run_ops ops))) (c10_abs_run ops) = 0.
 Proof.
-  intros ops H. unfold c10_proper_strict, c10_proper_gen in H. apply andb_true_iff in H as [H H35]. apply andb_true_iff in H as [Hops H8].
-  destruct (run_rel ops new_message abs_empty abs_ok_empty msg_rel_new Hops) as [Hok Hrel].
+  intros ops H. unfold c10_proper, c10_proper_gen in H. apply andb_true_iff in H as [H H35]. apply andb_true_iff in H as [Hops H8].
+  destruct (run_rel false ops new_message abs_empty abs_ok_empty msg_rel_new Hops) as [Hok Hrel].
   apply build_wellformed; assumption.
 Qed.
 
-(* ================= the excluded class is a real violation of the unrestricted statement ================= *)
-Definition c10_refuting_program : list c10_op :=
+(* ================= regression witness: a scalar set over a live repeating group ================= *)
+(* Before the repair of getOrCreate (which returned the alias f[:1] and left the stored slice long) this program built
+   453=0 followed by the stale members 448=A 447=B; it is proper, hence well-formed now. *)
+Definition c10_set_over_group_program : list c10_op :=
   [ OpSet SecHeader 8 [70; 73; 88; 46; 52; 46; 50];      (* 8=FIX.4.2 *)
     OpSet SecHeader 35 [68];                               (* 35=D *)
     OpSetGroup SecBody 453 [448; 447] [[(448, [65]); (447, [66])]];   (* NoPartyIDs=1: 448=A 447=B *)
-    OpSet SecBody 453 [48] ].                              (* SetInt(453, 0): the old members stay on the wire *)
+    OpSet SecBody 453 [48] ].                              (* SetInt(453, 0) *)
 
-Lemma run_ops_wellformed_refuted : exists ops, c10_proper ops = true /\
-  c10_wf (snd (msg_build (msg_run_ops ops))) (c10_abs_run ops) <> 0.
-Proof. exists c10_refuting_program. split; [vm_compute; reflexivity|vm_compute; discriminate]. Qed.
+Lemma c10_set_over_group_wellformed : c10_proper c10_set_over_group_program = true /\
+  c10_proper_strict c10_set_over_group_program = false /\
+  c10_wf (snd (msg_build (msg_run_ops c10_set_over_group_program))) (c10_abs_run c10_set_over_group_program) = 0 /\
+  snd (msg_build (msg_run_ops c10_set_over_group_program)) =
+    ser [(8, [70; 73; 88; 46; 52; 46; 50]); (9, [49; 49]); (35, [68]); (453, [48]); (10, [50; 51; 54])].
+Proof. vm_compute. repeat split; reflexivity. Qed.
 
-(* non-vacuity: a proper strict program with overwrite, remove->set, clear->set, a group, a copy and an intermediate build *)
+(* non-vacuity: a proper program with overwrite, remove->set, clear->set, a group, a copy and an intermediate build *)
 Definition c10_example_program : list c10_op :=
   [ OpSet SecHeader 8 [70; 73; 88; 46; 52; 46; 50]; OpSet SecHeader 35 [68];
     OpSet SecBody 55 [65]; OpRemove SecBody 55; OpSet SecBody 55 [66];
     OpSetGroup SecBody 453 [448; 447] [[(448, [65]); (447, [66])]; [(448, [67])]];
     OpBuild; OpCopy [(SecBody, 58, [120])];
     OpClear SecTrailer; OpSet SecTrailer 93 [51]; OpSet SecTrailer 89 [97; 98; 99]; OpSet SecHeader 49 [83] ].
-Lemma c10_example_proper : c10_proper_strict c10_example_program = true.
+Lemma c10_example_proper : c10_proper c10_example_program = true.
 Proof. vm_compute. reflexivity. Qed.
 
 (* ================= parsing the built bytes gives the fields back ================= *)
@@ -1238,7 +1240,7 @@ Proof.
           unfold c11_counts in Hmid. lia.
       - unfold fs at 1. rewrite <- HL. rewrite beq_bytes_refl. cbn [andb].
         pose proof (c11_body_length_le_len fs). rewrite Ebs in Hlen. unfold two63 in Hlen. lia. }
-    destruct (parse_fidelity fs None Hwire) as (p & Hp & Hraw & Hfields & Hret).
+    destruct (parse_fidelity fs None None Hwire (ad_no_group_start_none fs)) as (p & Hp & Hraw & Hfields & Hret).
     exists fs, p. split; [exact Ebs|]. split.
     + apply scan_ser. apply Forall_forall. intros f Hf. destruct (Hfine f Hf) as [(Ht & Hs & _) _]. split; [lia|exact Hs].
     + split; [exact Hp|]. split; [exact Hraw|]. split; [|exact Hret].
@@ -1248,13 +1250,13 @@ Qed.
 Definition c10_uses_xml_data_len (ops : list c10_op) : bool := c10_has (c10_abs_run ops) SecHeader TAG_XML_DATA_LEN.
 
 (* C10, "parsing those bytes yields the same fields and values" *)
-Theorem run_ops_parse_back : forall ops, c10_proper_strict ops = true -> c10_uses_xml_data_len ops = false ->
+Theorem run_ops_parse_back : forall ops, c10_proper ops = true -> c10_uses_xml_data_len ops = false ->
   len (snd (msg_build (msg_run_ops ops))) < two63 ->
   exists fs p, snd (msg_build (msg_run_ops ops)) = ser fs /\ scan (ser fs) = Some fs /\
     do_parsing (ser fs) None None = Ok p /\ m_raw p = Some (ser fs) /\ m_fields p = map init_of fs /\
     forall t v, c11_last_value fs t = Some v -> fm_get_bytes (parsed_section None t p) t = Ok v.
 Proof.
-  intros ops H Hx Hlen. unfold c10_proper_strict, c10_proper_gen in H. apply andb_true_iff in H as [H H35]. apply andb_true_iff in H as [Hops H8].
-  destruct (run_rel ops new_message abs_empty abs_ok_empty msg_rel_new Hops) as [Hok Hrel].
+  intros ops H Hx Hlen. unfold c10_proper, c10_proper_gen in H. apply andb_true_iff in H as [H H35]. apply andb_true_iff in H as [Hops H8].
+  destruct (run_rel false ops new_message abs_empty abs_ok_empty msg_rel_new Hops) as [Hok Hrel].
   apply (build_parses_back _ (c10_abs_run ops)); assumption.
 Qed.
